@@ -457,6 +457,27 @@ func run(c *vh.Ctx) error {
 		res.Dist("overthreshold")
 	}
 
+	// deterministic sweep: multiples of 200 (where 0.685*T and 0.585*T are integers and float rounding decides)
+	for T := uint64(0); T <= uint64(c.N(40000, 400000)) && rn.derr == nil; T += 200 {
+		for _, pos := range []bool{true, false} {
+			q := uint32(quorumOf(T, pos))
+			for _, cnt := range []uint32{q, q - 1} {
+				g := ucon.OverThreshold(cnt, T, pos)
+				if rn.drv != nil {
+					m := rn.ask([]string{fmt.Sprintf("OT %d %d %d", cnt, T, b2i(pos))})
+					res.TracesVsImpl++
+					if m != fmt.Sprint(b2i(g)) {
+						rp := vh.WriteReplay(c.ReplayDir, "C01", fmt.Sprintf("overthreshold-sweep-%d", T), c.Seed, []string{"correspondence: OverThreshold differs from the exact float model", fmt.Sprintf("go: %v lean: %s", g, m)},
+							[]string{fmt.Sprintf("L OT %d %d %d", cnt, T, b2i(pos))})
+						res.Fail("correspondence", "", fmt.Sprintf("OverThreshold(%d,%d,%v): go=%v model=%s", cnt, T, pos, g, m), rp)
+					}
+				}
+				res.Count(fmt.Sprintf("OT %d %d %v", cnt, T, pos), true)
+				res.Dist("overthreshold-sweep")
+			}
+		}
+	}
+
 	// ---- headers ----------------------------------------------------------------------------------------
 	nWorlds := c.N(14, 120)
 	if c.Search {
